@@ -50,6 +50,8 @@ def generate(seed: int, tier: str, idx: int) -> dict:
     if not pv:
         sc["output"].pop("pvars", None)
         sc["output"].pop("release_time_pvar", None)
+    if s.chance(0.25):
+        sc["output"]["filename"] = s.pick(["res_07.nc", "a_b_0098.nc", "run42.nc", "x_1.nc"])
     return sc
 
 
@@ -59,16 +61,40 @@ def expected_records(sc) -> list[tuple[int, np.datetime64]]:
 
 
 def expected_files(sc, nrec: int) -> list[tuple[str, int]]:
+    """doc/source/output.rst and the docstring of filename_generator: out.nc -> out_000.nc, out_001.nc, ...;
+    a prototype ending in _<digits> starts at that number with that width: res_07.nc -> res_07.nc, res_08.nc"""
+    import re
+
     r = sc["output"].get("numrec", 0)
+    proto = sc["output"].get("filename", "out.nc")
     if not r:
-        return [("out.nc", nrec)]
-    out, k, num = [], 0, 0
+        return [(proto, nrec)]
+    stem = proto[:-3]
+    m = re.search(r"_(\d+)$", stem)
+    if m:
+        first, width, base = int(m.group(1)), len(m.group(1)), stem[: m.start()]
+    else:
+        first, width, base = 0, 3, stem
+    out, k, num = [], 0, first
     while k < nrec or not out:
-        m = min(r, nrec - k)
-        out.append((f"out_{num:03d}.nc", m))
+        mrec = min(r, nrec - k)
+        out.append((f"{base}_{num:0{width}d}.nc", mrec))
         k += r
         num += 1
     return out
+
+
+def output_files(d) -> list:
+    """every NetCDF file the run left behind that is not part of the world, in numbering order"""
+    import re
+
+    files = [p for p in d.glob("*.nc") if not p.name.startswith(("grid", "forcing"))]
+
+    def key(p):
+        m = re.search(r"_(\d+)\.nc$", p.name)
+        return (p.name[: m.start()] if m else p.name, int(m.group(1)) if m else -1)
+
+    return sorted(files, key=key)
 
 
 def _is_fill(x: np.ndarray) -> np.ndarray:
@@ -106,7 +132,7 @@ def compare_records(a, b, tol_ok=False) -> str | None:
 
 def check_files(res: Result, sc, d, tagp="C07") -> readback.Records | None:
     exp = expected_records(sc)
-    files = readback.list_output_files(d)
+    files = output_files(d)
     names = [f.name for f in files]
     expf = expected_files(sc, len(exp))
     if names != [n for n, _ in expf]:
@@ -167,7 +193,7 @@ def execute(sc) -> Result:
                 if v2 is not None:
                     res.add(v2)
                     return res
-                R2 = readback.Records(readback.list_output_files(d2))
+                R2 = readback.Records(output_files(d2))
                 if run.error is None and run2.error is None:
                     if len(R.recs) != len(R2.recs):
                         res.add(Violation("C07.split_vs_unsplit", None, "number of records",
